@@ -30,9 +30,8 @@ fn any_entry() -> TraceEntry {
     TraceEntry { instr_ip: kani::any(), target: kani::any(), variant: variant(k), level, count }
 }
 
-pub fn check_add_trace() {
+pub fn check_add_trace(has_last: bool) {
     let mut ax = empty_ax();
-    let has_last: bool = kani::any();
     let last = any_entry();
     if has_last {
         ax.state.trace.push(last.clone());
